@@ -208,6 +208,7 @@ type Exec struct {
 	frames          []*Frame
 	lastSpecState   *State
 	lastPreserved   [2]Value
+	keepFacts       []*Term // facts about uninterpreted results that survive specification evaluation
 	lastPreservedSt *State
 	topFrame        *Frame
 	recActive       map[*ssa.Function]string
@@ -252,6 +253,16 @@ func (ex *Exec) assume(pc, fact *Term) {
 		return
 	}
 	ex.assumptions = append(ex.assumptions, t)
+}
+
+// assumeAlways: an unconditional fact about an uninterpreted term (e.g. the range of encoder.Len()); kept
+// even when it arises while specification code is evaluated
+func (ex *Exec) assumeAlways(fact *Term) {
+	if fact.IsTrue() {
+		return
+	}
+	ex.assumptions = append(ex.assumptions, fact)
+	ex.keepFacts = append(ex.keepFacts, fact)
 }
 
 func (ex *Exec) oblige(fr *Frame, kind, label string, pos token.Pos, pc, goal *Term, props []string) {
